@@ -41,7 +41,10 @@ mutual
       refine ⟨st', ?_, h'⟩
       have hk : Cfg.fixed.keepEmptyTable = true := rfl
       have hm' : m ≠ 0 := by omega
-      simp only [encType, decType, hk, Bool.true_or, if_true, hm', if_false, e, Comp.norm]
+      have hnd : (st'.allocs.take (st'.allocs.length - st.allocs.length)).Nodup := by
+        have : st'.allocs.Nodup := by rw [h'.allocs_eq]; exact h'.nodup
+        exact this.sublist (List.take_sublist _ _)
+      simp only [encType, decType, hk, Bool.true_or, if_true, hm', if_false, e, hnd, Comp.norm]
       by_cases hc : name = "CPLX"
       · subst hc; simp
       · simp [hc, hn]
@@ -82,11 +85,13 @@ theorem roundtrip_circuit {env : Env} (ev : String → List Sub → Dbl) (c : Co
   rw [hn 0 (Comp.circ m n i).size]
   exact e
 
-/-- A numeric matrix of any shape `r × c` (`r, c > 0` … here stated for the square case the
-`Unitary` component uses) is transported entry by entry. -/
-theorem roundtrip_matrix (rows : List (List Cx)) (h : (Mat.num rows).WFnum) :
-    decMat (encMat (.num rows)) = some (.num rows) :=
-  decMat_encMat_num rows h
+/-- A numeric or symbolic matrix of any rectangular shape (at least one row and one column) is
+transported entry by entry, in place (the writer emits rows, the reader fills rows). -/
+theorem roundtrip_matrix (m : Mat) (h : m.WFrect) : decMat (encMat m) = some m :=
+  decMat_encMat_rect m h
+
+example : (Mat.sym [["a", "b", "e"], ["c", "d", "f"]]).WFrect :=
+  ⟨by simp, 3, by decide, by intro r hr; simp at hr; rcases hr with rfl | rfl <;> rfl⟩
 
 /-! ## Detectors, ports, heralds, noise model -/
 
@@ -203,17 +208,164 @@ theorem roundtrip_experiment {env : Env} (ev : String → List Sub → Dbl) (x :
       have hv := this v u hp2
       have : v = 0 ∨ v = 1 := by omega
       rcases this with rfl | rfl <;> simp [APort.isHerald]
-  have hfil : (if (match x.filter with
-        | some n => if Cfg.fixed.filterZero || n ≠ 0 then n else VALUE_NOT_SET
-        | none => VALUE_NOT_SET) ≠ VALUE_NOT_SET
-      then some (match x.filter with
-        | some n => if Cfg.fixed.filterZero || n ≠ 0 then n else VALUE_NOT_SET
-        | none => VALUE_NOT_SET) else none) = x.filter := by
-    cases hx : x.filter with
-    | none => simp
-    | some n => simp [Cfg.fixed, h.filter n hx]
   simp only [decExperiment, encExperiment, e1, e2, e3, e4, e5, e6, e, hnm, Option.getD_some, hne,
     if_false, Experiment.norm]
-  rw [if_pos ⟨c1, c2⟩, hfil]
+  rw [if_pos ⟨c1, c2⟩]
+  have hfz := h.filter
+  cases hx : x.filter with
+  | none => simp
+  | some n =>
+    have hn := hfz n hx
+    simp [Cfg.fixed, hn]
+
+/-! ## Every overload of `serialize` takes `compress=` -/
+
+/-- `serialize(x, compress=b)` is accepted for every tag — hence also inside `serialize(dict)`,
+`serialize(list)` and `serialize_to_file`, which forward `compress=`. -/
+theorem compress_keyword_uniform (tag : Text) (_h : tag ∈ knownTags) : kwAccepted false tag = true := by
+  simp [kwAccepted, compressKeyword]
+
+/-! ## Witnesses: the code as found (`Cfg.current`, `encMatAsFound`, `kwAccepted true`) breaks the property -/
+
+/-- non-vacuity of the hypotheses used below -/
+def envNone : Env := fun _ => none
+def envPhi : Env := fun n => if n = "phi" then some none else none
+def envA : Env := fun n => if n = "a" then some (some 3) else none
+def ev1 : String → List Sub → Dbl := fun _ _ => 1
+
+/-- a polarised, named `Unitary` on one spatial mode (a 2×2 matrix) -/
+def witUnitary : Comp := .unitary (.num [[(1, 0), (0, 0)], [(0, 0), (1, 0)]]) "foo" true
+
+set_option linter.defProp false in
+def witUnitary_wf : (wrap witUnitary).WF envNone := by
+  refine ⟨by decide, by decide, ?_, ?_, trivial⟩
+  · decide
+  · refine ⟨⟨by decide, ?_⟩, by decide, fun _ => by decide⟩
+    intro r hr; simp at hr; rcases hr with rfl | rfl <;> rfl
+
+/-- `deserialize_unitary` drops `name` and `use_polarization`: the rebuilt component is twice as
+large as its slot and `Circuit.add` refuses it (the `AssertionError` seen on the real code). -/
+theorem roundtrip_circuit_fails_on_current_code_unitary :
+    decodeCircuit Cfg.current (encodeCircuit Cfg.current ev1 witUnitary) = none := by decide
+
+/-- the same object on the repaired model -/
+example : ∃ st, decodeCircuit Cfg.fixed (encodeCircuit Cfg.fixed ev1 witUnitary) = some ((wrap witUnitary).norm, st) :=
+  ⟨_, rfl⟩
+
+/-- an experiment whose only setting is `min_detected_photons_filter(0)` -/
+def witFilter : Experiment :=
+  { name := some "Experiment", nMode := 1, input := none, noise := none, postSelect := none,
+    filter := some 0, inPorts := [], outPorts := [], detectors := [], comps := .nil }
+
+set_option linter.defProp false in
+def witFilter_wf : witFilter.WF envNone where
+  name := ⟨_, rfl, by decide⟩
+  input := by intro p h; cases h
+  noise := by intro p h; cases h
+  postSelect := by intro p h; cases h
+  filter := by intro n h; cases h; decide
+  inPorts := by intro p h; cases h
+  outPorts := by intro p h; cases h
+  detectors := by intro p h; cases h
+  comps := trivial
+
+/-- `if experiment.min_photons_filter:` writes the not-set sentinel for a filter of 0: it is `None`
+after the round trip. -/
+theorem roundtrip_experiment_fails_on_current_code_filter :
+    (decExperiment Cfg.current (encExperiment Cfg.current ev1 witFilter)).map (·.1.filter) = some none := by
+  decide
+
+example : (decExperiment Cfg.fixed (encExperiment Cfg.fixed ev1 witFilter)).map (·.1.filter) = some (some 0) := by
+  decide
+
+/-- a variable first met inside a nested sub-circuit and used again outside it -/
+def witShared : Comp :=
+  .circ 2 "CPLX"
+    (.cons 0 (.circ 2 "sub" (.cons 0 (.leaf .ps [.var "phi" none, .fixed 0]) .nil))
+    (.cons 1 (.leaf .ps [.var "phi" none, .fixed 0]) .nil))
+
+set_option linter.defProp false in
+def witShared_wf : witShared.WF envPhi := by
+  have hp : ∀ p ∈ [Param.var "phi" none, Param.fixed 0], p.WF envPhi := by
+    intro p hp; simp at hp; rcases hp with rfl | rfl
+    · exact ⟨by decide, rfl⟩
+    · trivial
+  exact ⟨by decide, by decide, by decide, ⟨by decide, by decide, by decide, ⟨rfl, hp⟩, trivial⟩,
+    by decide, ⟨rfl, hp⟩, trivial⟩
+
+/-- `params or dict()` hands the sub-circuit a private table while the shared one is still empty:
+`phi` is constructed twice and `Circuit.add` raises "two parameters with the same name". -/
+theorem roundtrip_circuit_fails_on_current_code_shared_table :
+    decodeCircuit Cfg.current (encodeCircuit Cfg.current ev1 witShared) = none := by decide
+
+example : (decodeCircuit Cfg.fixed (encodeCircuit Cfg.fixed ev1 witShared)).map (·.2.allocs) = some ["phi"] := by
+  decide
+
+/-- `PS(Expression("2*a", {a}))` with `a = 3` -/
+def witExpr : Comp := .leaf .ps [.expr "2*a" [⟨"a", false, some 3⟩], .fixed 0]
+
+set_option linter.defProp false in
+def witExpr_wf : (wrap witExpr).WF envA := by
+  refine ⟨by decide, by decide, by decide, ⟨rfl, ?_⟩, trivial⟩
+  intro p hp; simp at hp; rcases hp with rfl | rfl
+  · refine ⟨by decide, ?_⟩
+    intro s hs; simp at hs; subst hs
+    exact ⟨by decide, rfl, by intro h; cases h⟩
+  · trivial
+
+/-- `if param.defined:` is tested before `_is_expression`: an expression whose sub-parameters have
+values is written as a plain number named `2*a`, and comes back as an independent `Parameter` —
+the binding to `a` is lost. -/
+theorem roundtrip_circuit_fails_on_current_code_expression :
+    (decodeCircuit Cfg.current (encodeCircuit Cfg.current ev1 witExpr)).map (·.1.params)
+      = some [.var "2*a" (some 1), .fixed 0] := by decide
+
+example : (decodeCircuit Cfg.fixed (encodeCircuit Cfg.fixed ev1 witExpr)).map (·.1.params)
+    = some (wrap witExpr).norm.params := by decide
+
+/-- one expression in two slots of one component -/
+def witExpr2 : Comp :=
+  .leaf (.bs .rx) [.expr "2*a" [⟨"a", false, none⟩], .expr "2*a" [⟨"a", false, none⟩], .fixed 0, .fixed 0, .fixed 0]
+
+/-- the reader builds a new `Expression` object per slot; the component constructor refuses two
+objects with one name. -/
+theorem roundtrip_circuit_fails_on_current_code_expression_twice :
+    decodeCircuit Cfg.current (encodeCircuit Cfg.current ev1 witExpr2) = none := by decide
+
+example : (decodeCircuit Cfg.fixed (encodeCircuit Cfg.fixed ev1 witExpr2)).map (·.1.params)
+    = some (wrap witExpr2).norm.params := by decide
+
+/-- `serialize_matrix` walks a symbolic matrix with `m.vec()` (columns) while the reader fills
+rows: a symbolic matrix comes back transposed (rectangular ones scrambled). -/
+theorem roundtrip_matrix_fails_on_current_code_symbolic :
+    decMat (encMatAsFound (.sym [["a", "b"], ["c", "d"]])) = some (.sym [["a", "c"], ["b", "d"]]) := by
+  decide
+
+/-- `serialize(detector, compress=…)` raises `TypeError` as found. -/
+theorem compress_keyword_fails_on_current_code :
+    kwAccepted true "Detector".toList = false ∧ kwAccepted true "BSLayeredDetector".toList = false := by
+  decide
+
+/-! ## Non-vacuity of the hypotheses of the theorems above -/
+
+example := roundtrip_circuit ev1 witUnitary witUnitary_wf
+example := roundtrip_circuit ev1 witShared witShared_wf
+example := roundtrip_circuit ev1 witExpr witExpr_wf
+example := roundtrip_component ev1 (wrap witExpr) {} (Inv.empty envA) witExpr_wf
+example := roundtrip_experiment ev1 witFilter witFilter_wf
+example := roundtrip_parameter ev1 {} (Inv.empty envPhi) (.var "phi" none) ⟨by decide, rfl⟩
+example : (Det.det "PNR" none none).WF := rfl
+example : (Det.det "thr" (some 3) (some 2)).WF := ⟨by decide, 2, rfl, by decide, by decide⟩
+example : (Det.ppnr "BS-PPNR2" 2 0).WF := by
+  show 0 < 2 ∧ (0 : Dbl) ≤ 0 ∧ (0 : Dbl) ≤ 1
+  decide
+example : (APort.herald 1 (some "anc")).WF := by
+  show some "anc" ≠ some ""
+  decide
+example : (APort.herald 0 none).WF := by
+  show (none : Option String) ≠ some ""
+  decide
+example : "Detector".toList ∈ knownTags := by decide
+example := grid_error 1 3 (by decide)
 
 end PM.C15
